@@ -424,9 +424,13 @@ fn c18(ctx: &Ctx, rep: &mut Report) {
         ("PATH", list_vals("p1", "p2")),
         ("SUDO_UID", sudo_vals.clone()),
         ("SUDO_GID", sudo_vals),
+        // variables that none of the functions is documented to read: the answers do not depend on them (a fallback
+        // taken from the platform's idea of a temp or home directory would)
+        ("TMPDIR", vec![None, Some(d("tmpd")), Some(String::new())]),
+        ("XDG_CONFIG_HOME_DIRS", vec![None, Some(d("bogus"))]),
     ];
     // configurations: per function full product of the variables it reads, others at index 0/1 defaults; + random
-    let groups: Vec<Vec<usize>> = vec![vec![0, 1, 6], vec![0, 2], vec![0, 3], vec![0, 4], vec![5], vec![7], vec![8], vec![9, 10]];
+    let groups: Vec<Vec<usize>> = vec![vec![0, 1, 6], vec![0, 2], vec![0, 3], vec![0, 4], vec![5, 11], vec![7], vec![8], vec![9, 10], vec![0, 11, 12]];
     let mut configs: Vec<Vec<usize>> = vec![];
     for g in &groups {
         let mut idx = vec![0usize; g.len()];
